@@ -1,4 +1,5 @@
 import Bw.Validators
+import Bw.Lemmas.NumRat
 /-! # C06 — keep-sorted reports a block iff its keys are out of order
 
 Theorems about `Bw.Val.sortLoop` / `keysOf` / `keepSorted` (the model of
@@ -264,6 +265,94 @@ theorem finish_err (code : String) (b : Blocks.Block) (data) (e : ErrKind) :
     finishKey code b data (.err e) = .error e := rfl
 
 -- non-vacuity: a concrete out-of-order block is flagged at the right key
+/-! ### numeric format: the comparison is the order of the numbers the keys denote -/
+open Bw.Num in
+/-- finite keys compare as the rational numbers they denote (m·10^e, exactly - no rounding in the model);
+    ties are broken the `f64::total_cmp` way: -0 sorts before +0 -/
+theorem numeric_lt_iff (na nb : Bool) (m₁ m₂ : Nat) (e₁ e₂ : Int) :
+    totalCmp (.fin na m₁ e₁) (.fin nb m₂ e₂) = .lt ↔
+      svalue na m₁ e₁ < svalue nb m₂ e₂ ∨ (svalue na m₁ e₁ = svalue nb m₂ e₂ ∧ na = true ∧ nb = false) := by
+  have h1 := value_nonneg m₁ e₁
+  have h2 := value_nonneg m₂ e₂
+  cases na <;> cases nb
+  · simp only [totalCmp, cls, svalue, ne_eq, not_true_eq_false, if_false, magCmp_lt]; simp
+  · simp only [totalCmp, cls, svalue]
+    have : cmpNat 3 2 = .gt := by decide
+    simp [this]; grind
+  · simp only [totalCmp, cls, svalue]
+    have : cmpNat 2 3 = .lt := by decide
+    simp [this]; grind
+  · simp only [totalCmp, cls, svalue, ne_eq, not_true_eq_false, if_false, magCmp_lt]
+    simp [Rat.neg_lt_neg_iff]
+
+open Bw.Num in
+theorem numeric_gt_iff (na nb : Bool) (m₁ m₂ : Nat) (e₁ e₂ : Int) :
+    totalCmp (.fin na m₁ e₁) (.fin nb m₂ e₂) = .gt ↔
+      svalue nb m₂ e₂ < svalue na m₁ e₁ ∨ (svalue na m₁ e₁ = svalue nb m₂ e₂ ∧ na = false ∧ nb = true) := by
+  have h1 := value_nonneg m₁ e₁
+  have h2 := value_nonneg m₂ e₂
+  cases na <;> cases nb
+  · simp only [totalCmp, cls, svalue, ne_eq, not_true_eq_false, if_false, magCmp_gt]; simp
+  · simp only [totalCmp, cls, svalue]
+    have : cmpNat 3 2 = .gt := by decide
+    simp [this]; grind
+  · simp only [totalCmp, cls, svalue]
+    have : cmpNat 2 3 = .lt := by decide
+    simp [this]; grind
+  · simp only [totalCmp, cls, svalue, ne_eq, not_true_eq_false, if_false, magCmp_gt]
+    simp [Rat.neg_lt_neg_iff]
+
+open Bw.Num in
+/-- equal numbers of the same sign are in order in both directions (`1.0`, `1`, `10e-1`) -/
+theorem numeric_eq_iff (n : Bool) (m₁ m₂ : Nat) (e₁ e₂ : Int) :
+    totalCmp (.fin n m₁ e₁) (.fin n m₂ e₂) = .eq ↔ svalue n m₁ e₁ = svalue n m₂ e₂ := by
+  cases n
+  · simp only [totalCmp, cls, svalue, ne_eq, not_true_eq_false, if_false, magCmp_eq]; simp
+  · simp only [totalCmp, cls, svalue, ne_eq, not_true_eq_false, if_false, magCmp_eq]
+    simp only [Bool.true_eq_false, if_true]
+    constructor
+    · intro h; rw [h]
+    · intro h; grind
+
+open Bw.Num in
+/-- infinities and NaNs sit outside every finite number, in `total_cmp`'s rank order -/
+theorem numeric_special (a b : Num) (h : cls a ≠ cls b) : totalCmp a b = cmpNat (cls a) (cls b) := by
+  simp [totalCmp, h]
+
+/-- the pattern a block's `keep-sorted-pattern` attribute selects (absent or empty: none) -/
+def patternOf (b : Blocks.Block) : Option Text :=
+  if ((Tag.attrGet b.attrs "keep-sorted-pattern".toList).getD []).isEmpty then none
+  else some ((Tag.attrGet b.attrs "keep-sorted-pattern".toList).getD [])
+
+/-- **block level** (lexicographic format): with a valid direction and a usable pattern the block passes
+    exactly when no adjacent pair of its keys is strictly out of order -/
+theorem ks_block_iff_lex (re : Regex) (file : Text) (b : Blocks.Block) (dir norm : Text)
+    (hd : normDirection dir = some norm) (hf : sortFormat b.attrs = some false)
+    (hp : patternOf b = none ∨ re.compiles ((Tag.attrGet b.attrs "keep-sorted-pattern".toList).getD []) = true) :
+    keepSorted re file b dir = .ok none ↔
+      ¬ OutOfOrder lexCmp (badOrdering norm) (keysOf re (patternOf b) (lines (content file b))) := by
+  rw [← ks_pass_iff]
+  have hg : ((patternOf b).isSome && !re.compiles ((Tag.attrGet b.attrs "keep-sorted-pattern".toList).getD [])) = false := by
+    rcases hp with h | h
+    · simp [h]
+    · rw [h]; simp
+  unfold keepSorted
+  rw [hd]
+  simp only [hf]
+  unfold patternOf at hg
+  unfold patternOf
+  simp only [hg, Bool.false_eq_true, if_false]
+  have hc : sortCmp false = fun a b => .ok (lexCmp a b) := by
+    funext a b; simp [sortCmp]
+  rw [hc]
+  generalize sortLoop (fun a b => Except.ok (lexCmp a b)) (badOrdering norm) none _ = v
+  cases v with
+  | pass => simp [finishKey]
+  | err e => simp [finishKey]
+  | viol k =>
+    simp only [finishKey]
+    cases severityOf b.attrs <;> simp
+
 example : sortLoop (fun a b => .ok (lexCmp a b)) .gt none
     [⟨1, "a".toList, 1, 1⟩, ⟨2, "c".toList, 1, 1⟩, ⟨4, "b".toList, 1, 1⟩, ⟨5, "a".toList, 1, 1⟩]
     = .viol ⟨4, "b".toList, 1, 1⟩ := by decide
